@@ -63,7 +63,7 @@ def bounded(pb, interp, rng, tier):
     ev, fails, samples, distinct = 0, [], [], set()
 
     def fail(fn, what, inst, detail):
-        if len(fails) < 30:
+        if sum(1 for f_ in fails if f_["what"] == what) < 8:      # cap per kind: a known finding must not crowd out a new failure
             fails.append({"function": f"pulsarbat.pulsar.predictor.PhasePredictor.{fn}", "what": what, "instance": inst, "inputs": {"case": inst}, "observed": str(detail)[:200], "status": "mismatch"})
 
     cfgs = []
